@@ -5,6 +5,7 @@ TRUSTED_COMMON = [
     "Mathlib v4.33.0 lemmas (kernel-checked)",
     "hand-written Lean model is a faithful transcription of the Rust code: validated by the correspondence run, bounded by its generators",
     "Rust harness (case generation, calling sfs-core in-process / spawning the sfs binary), Lean driver protocol decoding, python orchestration",
+    "tools/extract_consts.py (regex extraction of constants from the Rust source into Generated/SourceConsts.lean for Props/Tie.lean)",
 ]
 
 PROPS = {
@@ -55,8 +56,8 @@ PROPS = {
     "C03": dict(
         theorems=["chooseFast_eq", "hyper_eq", "hyper_sum_one", "hyper_full", "projectValue_cons", "project_eq_spec", "projectIter_eq",
                   "project_ok_iff", "zero_is_error", "dimension_is_error", "larger_is_error", "project_mass", "project_id",
-                  "project_nonneg", "hyper_compose", "project_project", "project_marginalize_comm"],
-        modules=["SfsModel.Props.C03", "SfsModel.Props.C03X"],
+                  "project_nonneg", "hyper_compose", "project_project", "project_marginalize_comm", "hyper_le_one", "projectValue_le_one", "project_le_mass"],
+        modules=["SfsModel.Props.C03", "SfsModel.Props.C03X", "SfsModel.Props.C03B"],
         nontrivial=r"^(project-d[1-9]|project-two-step$|project-row|pmf-.*-pos|project-err)",
         rule="Spectrum::project in-process on every admissible target (<= 40 sampled per shape in quick) of all shapes 1-2 axes x 1..7, 3 axes x 1..3, 4 axes x 1..2 "
              "(thorough: 1-3 x 1..7, 4 x 1..3), odd-integer data and unit vectors (single operator rows), two-step vs direct, rejected targets (larger, zero, other dimensionality); "
@@ -78,7 +79,8 @@ PROPS = {
     ),
     "C02": dict(
         theorems=["site_classification", "contribution_projected", "exact_eq_projected", "insufficient_contributes_nothing", "run_projected_eq_spec",
-                  "individuals_eq_shape", "unequal_dimensions_error", "oversized_error", "zero_error", "admissible_ok", "create_then_project"],
+                  "individuals_eq_shape", "unequal_dimensions_error", "oversized_error", "zero_error", "admissible_ok", "create_then_project", "source_constants"],
+        modules=["SfsModel.Props.C02", "SfsModel.Props.Tie"],
         nontrivial=r"^c02-(mem-proj-.*P|mem-proj-.*S.*I|mem-proj-.*I.*|mem-build-error|cli-)",
         rule="exhaustive: 2 populations of 1-2 samples x every target m_j in 0..2n_j x all records over {0,1,2,missing}^n (in-process, incl. t = m for all j, t_j = m_j - 2, m_j = 0); "
              "random maps/targets incl. inadmissible ones (larger, other dimensionality, zero), -p vs --project-shape; cohorts of 90-600 (thorough 3000) samples in one population (binomials beyond f64 range); "
@@ -120,7 +122,8 @@ PROPS = {
     ),
     "C12": dict(
         model_emitted=True,
-        theorems=["detect_magic", "prefix_schedule_free", "prefix_then_rest", "create_schedule_free", "pipeline_factors", "containers_agree", "pipeline_factors_decoded", "same_calls_same_output", "shape_by_lookup"],
+        theorems=["detect_magic", "prefix_schedule_free", "prefix_then_rest", "create_schedule_free", "pipeline_factors", "containers_agree", "pipeline_factors_decoded", "same_calls_same_output", "shape_by_lookup", "source_constants", "inflate_stored", "bgzf_block_roundtrip", "bgzf_roundtrip", "bgzf_partition_free", "gzip_peek", "vcf_roundtrip", "bcf_roundtrip", "detect_encoded", "containers_agree_bytes", "same_bytes_outcome", "bgzf_concat_any", "create_schedule_free_bytes"],
+        modules=["SfsModel.Props.C12", "SfsModel.Props.Tie", "SfsModel.Props.C12B"],
         nontrivial=r"^(c12-same|ct-cli)",
         rule="12 (thorough 60) call sets (up to 3000 records, with/without projection and sample lists, one ending in a ploidy error) each run as {vcf, vcf.gz, bcf, raw bcf} x {path, stdin} x threads {1,3,16} "
              "(thorough 1,2,3,4,8,16) x BGZF layouts (one line per block, random cuts incl. mid-line, interleaved empty blocks; thorough also single block / 9 even cuts) x 2 (thorough 3) repeated executions: "
@@ -135,8 +138,8 @@ PROPS.update({
     "C07": dict(
         theorems=["npy_roundtrip", "writeNpy_ok", "detect_npy", "reads_what_it_writes_npy", "text_header_roundtrip", "fmtFixed_token", "text_shape_tokens",
                   "fmtFixed_error", "fmtRatFixed_parses", "text_value_roundtrip", "text_special_roundtrip", "literal_bound_witness", "detect_text", "reads_what_it_writes_text",
-                  "nearest_error", "fifteen_digits_print_back", "text_npy_text"],
-        modules=["SfsModel.Props.C07", "SfsModel.Props.C07X"],
+                  "nearest_error", "fifteen_digits_print_back", "text_npy_text", "source_constants"],
+        modules=["SfsModel.Props.C07", "SfsModel.Props.C07X", "SfsModel.Props.Tie"],
         nontrivial=r"^(npyrt-res\d+-d[2-9]|npyrt-.*special|textrt-p\d+-d[2-9]|fmt-fin|parse-|pipe-|t2n2t-|detect-[NT])",
         rule="220 (thorough 3000) random spectra with 1-6 axes over value classes {counts, negative dyadics, decimal ties, subnormals, huge, arbitrary bit patterns, NaN with several payloads, +-inf, +-0}: "
              "write npy -> bytes compared with writeNpy, read back compared with readNpy (bit patterns); write text at precision 0..17 -> bytes compared with writeText (i.e. `{:.p}` vs fmtFixed), "
@@ -149,7 +152,8 @@ PROPS.update({
     "C15": dict(
         theorems=["writer_layout", "writer_data_offset", "writer_error_iff", "writer_dict_parses", "grammar_accepts_numpy", "bar_is_little", "descr_accepted_iff",
                   "header_len_width", "bad_version_rejected", "fortran_rejected", "readValues_spec", "decode_big_eq", "decode_f8", "decode_f4", "signedOf_spec",
-                  "decode_unsigned_exact", "decode_signed_exact", "decode_unsigned_nearest", "decoder_table"],
+                  "decode_unsigned_exact", "decode_signed_exact", "decode_unsigned_nearest", "decoder_table", "source_constants", "source_alignment"],
+        modules=["SfsModel.Props.C15", "SfsModel.Props.Tie"],
         nontrivial=r"^(npyrt-|numpy-|npyread-|rdnpy-)",
         rule="writer: 69 shapes whose header dict length covers every residue modulo 64 (each residue is a tag in the histogram), zero-length axes, 40 (thorough 400) random shapes — bytes compared with writeNpy, "
              "and a third (thorough all) loaded by real numpy (python3-vt) and compared bit for bit; reader: 186 (thorough ~600) files written by numpy.lib.format.write_array for dtype(10) x byte order(<,>) x version(1.0,2.0,3.0) "
@@ -171,7 +175,8 @@ PROPS.update({
     "C18": dict(
         theorems=["readExact_schedule_free", "readLine_schedule_free", "readToEnd_schedule_free", "readNpy_schedule_free", "readText_schedule_free", "detect_schedule_free",
                   "read_failure_surfaces_npy", "read_failure_is_io_npy", "read_failure_surfaces_text", "writeAll_schedule_free", "writeNpy_schedule_free", "writeText_schedule_free",
-                  "write_failure_surfaces_npy", "write_failure_surfaces_text"],
+                  "write_failure_surfaces_npy", "write_failure_surfaces_text", "source_prefix_len"],
+        modules=["SfsModel.Props.C18", "SfsModel.Props.Tie"],
         nontrivial=r"^(rdnpy-|rdtext-|wr-|geno-)",
         rule="6 (thorough 30) npy files: first-chunk length enumerated 1..min(len,600) with later chunks whole / 1 byte / random 1-11, a read failure injected at every byte offset 0..len (incl. failing instead of EOF), truncated files over random schedules; "
              "the text reader likewise; writers: 1..7 bytes accepted per call and random schedules, a write failure at every offset (every third in quick); "
